@@ -1,10 +1,18 @@
 SPECIFICATION FairSpec
 CONSTANTS
   Gor = {"g1", "g2", "g3"}
-  Addrs = {"A", "B"}
-  MaxReq = 2
-  ConnLoss = FALSE
+  Eps = {"E", "F"}
+  Svcs = {"xe", "e", "ef", "f", "t"}
+  Adv <- AdvAll
+  MaxReq = 1
+  MaxLoss = 0
+  AuthMayRefuse = FALSE
   Dev_RUnlockUnderWriteLock = FALSE
-INVARIANTS TypeOK NoBadUnlock MutexOK AtMostOneConnPerEndpoint AllGetTheSharedClient ReturnedIsOpen NoDeadlock
+  Dev_NilChannelWhenAllSkipped = FALSE
+  Dev_AuthFailureLeaksConnection = FALSE
+  Dev_DeadClientStaysInPool = FALSE
+  Dev_PoolKeyedByAdvertised = FALSE
+  Dev_CloserBeforeInsert = FALSE
+INVARIANTS TypeOK ProcessAlive NoBadUnlock MutexOK RequestOutcome ReturnedIsOpen AtMostOneConnPerEndpoint ExtraConnectionsClosed PoolHoldsLiveClients AllGetTheSharedClient NoDeadlock
 PROPERTIES Terminates
 CHECK_DEADLOCK FALSE
